@@ -246,8 +246,8 @@ func VerifH_C01_ExtensionObject() {
 
 // service messages through the reflection codec and the service registry
 func vfReqHeader() *RequestHeader {
-	return &RequestHeader{AuthenticationToken: vfNodeID("auth"), Timestamp: vfTime("ts"), RequestHandle: vfU32("handle"), ReturnDiagnostics: vfU32("diag"),
-		AuditEntryID: vfStr("audit"), TimeoutHint: vfU32("timeout"), AdditionalHeader: NewExtensionObject(nil)}
+	return &RequestHeader{AuthenticationToken: NewNumericNodeID(vfU16("authns"), vfU32("auth")), Timestamp: vfTime("ts"), RequestHandle: vfU32("handle"), ReturnDiagnostics: vfU32("diag"),
+		AuditEntryID: vfString("audit", 1), TimeoutHint: vfU32("timeout"), AdditionalHeader: NewExtensionObject(nil)}
 }
 
 func vfServiceRoundTrip(svc interface{}, fresh interface{}) {
@@ -268,7 +268,7 @@ func VerifH_C01_ReadRequest() {
 	if n > 0 {
 		r.NodesToRead = make([]*ReadValueID, n)
 		for i := range r.NodesToRead {
-			r.NodesToRead[i] = &ReadValueID{NodeID: vfNodeID("node"), AttributeID: AttributeID(vfU32("attr")), IndexRange: vfStr("range"), DataEncoding: &QualifiedName{NamespaceIndex: vfU16("qns"), Name: vfStr("qname")}}
+			r.NodesToRead[i] = &ReadValueID{NodeID: NewNumericNodeID(vfU16("nns"), vfU32("nid")), AttributeID: AttributeID(vfU32("attr")), IndexRange: vfString("range", 1), DataEncoding: &QualifiedName{NamespaceIndex: vfU16("qns"), Name: vfString("qname", 1)}}
 		}
 	}
 	vfServiceRoundTrip(r, new(ReadRequest))
@@ -281,7 +281,8 @@ func VerifH_C01_ReadResponse() {
 	if n > 0 {
 		r.Results = make([]*DataValue, n)
 		for i := range r.Results {
-			r.Results[i] = vfDataValue("r")
+			// (the DataValue mask combinations are covered by VerifH_C01_DataValue)
+			r.Results[i] = &DataValue{EncodingMask: DataValueValue | DataValueStatusCode, Value: MustVariant(int32(vfU32("value"))), Status: StatusCode(vfU32("status"))}
 		}
 	}
 	vfServiceRoundTrip(r, new(ReadResponse))
